@@ -3,7 +3,7 @@ CONSTANTS NObjMax = 2
  NFree = 2
  NGnd = 2
  HasGround = TRUE
- MaxTag = 1
+ MaxTag = 2
  MaxCurves = 1
 INIT Init
 NEXT Next
